@@ -57,13 +57,17 @@ class C20(Prop):
                   "master applies are oracle functions (a master that calls back into the acting object during an apply is not "
                   "modelled); master/simul_efun reload and function-pointer geteuid are not modelled")
     rule = ("cases = corpus + known-finding inputs + boundary list + seeded random histories of load/clone/seteuid(string|int)/"
-            "export_uid/destruct/reload_object performed by the master and by objects under five directories whose "
+            "export_uid (also onto itself / onto missing objects)/destruct (also of the master = master reload)/reload_object, "
+            "directly, from inside create() of objects under construction (acyclic scripts, nesting up to 8), through function "
+            "pointers evaluated by other objects, and on virtual paths answered by master::compile_object, "
+            "performed by the master and by objects under five directories whose "
             "creator_file answer (own name, other user's name, backbone uid, root uid, NONAME, empty string, int, array, 0, "
             "runtime error) and valid_seteuid verdicts (1, 0, other ints, string, array, 0, runtime error; per object and uid) "
             "are switched during the case; a case is non-trivial when its trace has >= 2 lines; distinct = distinct "
             "canonical implementation trace")
     not_covered = ["the branch of clone_object that re-uses an unreferenced virtual object instead of asking compile_object again (ob->ref == 1) cannot occur with registered objects and is not modelled",
-                   "destruct/reload of the master or simul_efun object (set_master on reload) is not modelled; the model's master is loaded once",
+                   "reload of the simul_efun object, reload_object(master), a master without get_root_uid()/get_bb_uid() (cfg.bb = none is proved but not run), bind(), "
+                   "loads started by the driver itself without a current_object (preload, connect(); the translator tie `tie_load_no_current` covers the guard) and creation from call_out/heart_beat are not exercised",
                    "a master apply that calls back into the creating object (e.g. makes it seteuid(0) during creator_file) is not modelled",
                    "the simul_efun object has uid NONAME / euid 0 and no exemption in load_object/clone_object; it is not an actor in the harness",
                    "geteuid(function) is not exercised",
@@ -407,7 +411,8 @@ class C20(Prop):
     def histogram(self, cases, impl):
         h = {"steps": 0, "creations": 0, "cf_error": 0, "late_init": 0, "seteuid_approved": 0, "seteuid_refused": 0,
              "seteuid_zero": 0, "export_ok": 0, "export_refused": 0, "export_error": 0, "noeuid_load_error": 0,
-             "noeuid_clone_error": 0, "compile_object_calls": 0, "virtual_handed_out": 0, "nested_ops": 0, "nested_creations": 0, "nested_noeuid_refused": 0, "max_nesting": 0, "backbone_grants": 0, "policy_errors": 0, "nobj": 0, "reloads": 0,
+             "noeuid_clone_error": 0, "compile_object_calls": 0, "virtual_handed_out": 0, "funptr_ops": 0, "funptr_noeuid_refused": 0,
+             "master_reloads": 0, "master_reload_refused": 0, "export_onto_self": 0, "nested_ops": 0, "nested_creations": 0, "nested_noeuid_refused": 0, "max_nesting": 0, "backbone_grants": 0, "policy_errors": 0, "nobj": 0, "reloads": 0,
              "crash": 0}
         for c in cases:
             cur = None
@@ -419,6 +424,8 @@ class C20(Prop):
                     continue
                 if t[0] == "do":
                     h["steps"] += 1
+                    if len(t) > 2 and t[2] == "export," + t[1]:
+                        h["export_onto_self"] += 1
                     stack.append(cur)
                     if len(stack) > 1:
                         h["nested_ops"] += 1
@@ -445,6 +452,12 @@ class C20(Prop):
                     pend_cf = None
                 elif t[0] == "r" and cur:
                     r = " ".join(t[1:])
+                    if cur.startswith("via,"):
+                        h["funptr_ops"] += 1
+                    if cur == "dest,m":
+                        h["master_reloads" if r == "1" else "master_reload_refused"] += 1
+                    if len(stack) > 1 and stack[-1] and stack[-1].startswith("via,") and ("no_effective_user" in r or "without_effective_UID" in r):
+                        h["funptr_noeuid_refused"] += 1
                     if len(r) > 1 and r[0] == "v" and r[1:].isdigit() and not cur.startswith("clone,v"):
                         h["virtual_handed_out"] += 1
                     if cur.startswith("seteuid,s:"):
